@@ -68,6 +68,7 @@ def run_history(hist, seed, gseed, pool_spec=("serial",), pool=None):
     lib_obj = seams.stub_library(N)
     lib_path = drv.lib_file(N, False)
     digs, changed = [], []
+    fresh = []  # per step: values that must be NEW random draws of that step (name -> list)
     for op in hist:
         g0 = _global_state()
         try:
@@ -77,6 +78,16 @@ def run_history(hist, seed, gseed, pool_spec=("serial",), pool=None):
         g1 = _global_state()
         digs.append(_digest(out))
         changed.append(g0 != g1)
+        fr = {}
+        if op != "mll":
+            import astropy.units as u
+
+            if op in ("rej_int", "prior_sample"):
+                fr["P"] = np.atleast_1d(out["P"].to_value(u.day)).tolist()  # prior draws made by this call
+            if "K" in out.par_names:
+                fr["K"] = np.atleast_1d(out["K"].to_value(u.km / u.s)).tolist()  # linear draws made by this call
+        fresh.append(fr)
+    run_history.last_fresh = fresh
     return digs, changed, None
 
 
@@ -84,6 +95,7 @@ def check_history(case, part):
     hist = case["history"]
     seed = case["seed"]
     a, ca, ea = run_history(hist, seed, 101)
+    fresh = getattr(run_history, "last_fresh", [])
     b, cb, eb = run_history(hist, seed, 101)
     c, cc, ec = run_history(hist, seed, 977)
     part.states += 1
@@ -104,6 +116,17 @@ def check_history(case, part):
         if ca[k] or cc[k]:
             part.violation(dict(case, step=k), f"step {k} ({hist[k]}) changed numpy's or Python's global random state")
             return
+    # successive calls receive different random streams: a value drawn by one call never re-appears in a later call
+    for name in ("P", "K"):
+        seen = {}
+        for k, fr in enumerate(fresh):
+            for v in set(fr.get(name, ())):
+                if v in seen:
+                    part.violation(dict(case, step=k), f"step {k} ({hist[k]}) repeats a random draw of {name} made by step {seen[v]} ({hist[seen[v]]}) on the same "
+                                   "TheJoker: successive calls do not receive different random streams", observed=v)
+                    return
+            for v in fr.get(name, ()):
+                seen[v] = k
     # different seeds must give different random output somewhere (guards against a vacuous digest)
     d, _, ed = run_history(hist, seed + 1, 101)
     if ed is None and d == a and any(op != "mll" for op in hist):
